@@ -334,8 +334,14 @@ class Exec:
                 from plumpy import persistence
 
                 old = self.proc
+                try:
+                    with self.loop.as_running():
+                        data = pickle.dumps(persistence.Bundle(old))
+                except Exception:  # noqa: BLE001 - not savable here (a workchain waiting for live futures): no reload
+                    self.events.append({'ev': ev, 'done': False, 'unsavable': True})
+                    self.sample(kind)
+                    return None
                 with self.loop.as_running():
-                    data = pickle.dumps(persistence.Bundle(old))
                     if self.task is not None and not self.task.done():
                         self.task.cancel()
                 self.drain()
